@@ -86,39 +86,74 @@ def confirm(outdir):
     return kept
 
 
-def run(names, checks, tier, seeds):
+def run(names, checks, tier, seeds, jobs=4):
+    """apply each mutant in a scratch worktree and run the checks against it.  A mutant counts as caught only if the
+    same check with the same seed exits 0 on the UNCHANGED tree (verified once per check and seed): a check that
+    is broken on the clean tree must not make everything look caught."""
+    import threading, queue
     res_path = os.path.join(SEEDED, 'results.json')
     results = json.load(open(res_path)) if os.path.exists(res_path) else {}
-    wt = worktree()
-    try:
-        for d in sorted(glob.glob(os.path.join(SEEDED, '*'))):
-            name = os.path.basename(d)
-            if not os.path.isdir(d) or (names and name not in names): continue
-            meta = json.load(open(os.path.join(d, 'meta.json')))
-            cks = checks or [meta['property']]
+    lock = threading.Lock()
+    baseline = {}
+    def run_check(tree, ck, seed):
+        env = dict(os.environ, VERIF_REPO=tree, VERIF_SEED=str(seed))
+        t0 = time.time()
+        r = sh([PY, os.path.join(HERE, 'run_check.py'), ck, '--tier', tier], env=env, cwd=HERE, timeout=5400)
+        mech = sorted(set(l.split('mechanism=')[1].split(' ')[0] for l in r.stdout.splitlines() if 'mechanism=' in l))
+        return r.returncode, mech, round(time.time() - t0, 1)
+    def clean_ok(wt, ck, seed):
+        with lock:
+            ev = baseline.get((ck, seed))
+            if ev is None: ev = baseline[(ck, seed)] = threading.Event(); owner = True
+            else: owner = False
+        if owner:
             sh(['git', '-C', wt, 'checkout', '--', '.'])
-            ap = sh(['git', '-C', wt, 'apply', os.path.join(d, 'patch.diff')])
-            if ap.returncode != 0:
-                # the tree moved on: try a 3-way/fuzzy apply
-                ap = sh('cd %s && patch -p1 --fuzz=3 < %s' % (wt, os.path.join(d, 'patch.diff')))
-                if ap.returncode != 0:
-                    print('%s: patch no longer applies' % name); results.setdefault(name, {})['applies'] = False; continue
-            for ck in cks:
-                for seed in seeds:
-                    env = dict(os.environ, VERIF_REPO=wt, VERIF_SEED=str(seed), VERIF_EVIDENCE_DIR=tempfile.gettempdir())
-                    t0 = time.time()
-                    r = sh([PY, os.path.join(HERE, 'run_check.py'), ck, '--tier', tier], env=env, cwd=HERE, timeout=3600)
-                    mech = sorted(set(l.split('mechanism=')[1].split(' ')[0] for l in r.stdout.splitlines() if 'mechanism=' in l))
-                    caught = r.returncode == 1
-                    results.setdefault(name, {})['%s/%s/seed%d' % (ck, tier, seed)] = {
-                        'caught': caught, 'rc': r.returncode, 'mechanisms': mech[:6], 'wall_s': round(time.time() - t0, 1)}
-                    print('%-55s %s %s seed=%d -> %s %s' % (name, ck, tier, seed, 'CAUGHT' if caught else 'missed(rc=%d)' % r.returncode, mech[:3]))
-                    if caught: break
-            json.dump(results, open(res_path, 'w'), indent=1, sort_keys=True)
-    finally:
-        drop(wt)
-        # evidence files were written by runs against mutants: restore them from git so committed evidence stays honest
-        sh(['git', '-C', HERE, 'checkout', '--', 'evidence'])
+            rc, mech, wall = run_check(wt, ck, seed)
+            ev.rc = rc; ev.set()
+            print('baseline %s %s seed=%d on the unchanged tree -> rc=%d %s' % (ck, tier, seed, rc, mech[:3]), flush=True)
+        ev.wait()
+        return ev.rc == 0
+    todo = queue.Queue()
+    for d in sorted(glob.glob(os.path.join(SEEDED, '*'))):
+        name = os.path.basename(d)
+        if os.path.isdir(d) and (not names or name in names): todo.put(d)
+    def worker():
+        wt = worktree()
+        try:
+            while True:
+                try: d = todo.get_nowait()
+                except queue.Empty: return
+                name = os.path.basename(d)
+                meta = json.load(open(os.path.join(d, 'meta.json')))
+                cks = checks or [meta['property']]
+                mine = {}
+                for ck in cks:
+                    for seed in seeds:
+                        ok = clean_ok(wt, ck, seed)
+                        sh(['git', '-C', wt, 'checkout', '--', '.'])
+                        ap = sh(['git', '-C', wt, 'apply', os.path.join(d, 'patch.diff')])
+                        if ap.returncode != 0:
+                            ap = sh('cd %s && patch -p1 --fuzz=3 < %s' % (wt, os.path.join(d, 'patch.diff')))
+                            if ap.returncode != 0:
+                                sh('cd %s && git checkout -- . && git clean -fdq' % wt)
+                                print('%s: patch no longer applies' % name, flush=True); mine['applies'] = False; break
+                        rc, mech, wall = run_check(wt, ck, seed)
+                        caught = rc == 1 and ok
+                        mine['%s/%s/seed%d' % (ck, tier, seed)] = {'caught': caught, 'rc': rc, 'mechanisms': mech[:6], 'wall_s': wall,
+                                                                  'clean_tree_rc0': ok}
+                        print('%-55s %s %s seed=%d -> %s %s' % (name, ck, tier, seed, 'CAUGHT' if caught else 'missed(rc=%d%s)' % (rc, '' if ok else ', check not clean on unchanged tree'), mech[:3]), flush=True)
+                        sh('cd %s && git checkout -- . && git clean -fdq' % wt)
+                        if caught: break
+                    if mine.get('applies') is False: break
+                with lock:
+                    results.setdefault(name, {}).update(mine)
+                    json.dump(results, open(res_path, 'w'), indent=1, sort_keys=True)
+        finally:
+            drop(wt)
+    ts = [threading.Thread(target=worker) for _ in range(jobs)]
+    [t.start() for t in ts]; [t.join() for t in ts]
+    # evidence files were written by runs against mutants: restore them from git so committed evidence stays honest
+    sh(['git', '-C', HERE, 'checkout', '--', 'evidence'])
 
 
 if __name__ == '__main__':
@@ -133,6 +168,6 @@ if __name__ == '__main__':
             if x.startswith('--'): opt[x[2:]] = next(it);
         names = [x for x in names if x not in opt.values()]
         run(names, opt.get('checks', '').split(',') if opt.get('checks') else None, opt.get('tier', 'quick'),
-            [int(s) for s in opt.get('seeds', '0').split(',')])
+            [int(s) for s in opt.get('seeds', '0').split(',')], jobs=int(opt.get('jobs', '4')))
     else:
         print(__doc__)
